@@ -24,6 +24,19 @@ CLAIMED = {
               "descendant) to a well-formed graph whether the call returns or raises; hence every intermediate state of every history "
               "is well-formed. " + GRAPH_TIE),
         design='5 (C01)', technique='Lean 4 invariant proof by induction over operation histories + differential correspondence'),
+    'C03': dict(
+        text=("Theorems C03_forward / C03_backward for every input of the scheduler model (any WBS, resource set, calendars incl. "
+              "zero-capacity days, fractional capacities and bounded validity, both balance settings, any clock), no bound on sizes: every "
+              "usage row is a positive amount on the resource named by its task on a day whose calendar capacity is positive, and the amounts "
+              "booked on one resource and day never exceed that day's capacity (all tasks when balancing, per task otherwise) - independent of "
+              "the traversal order (ledger invariant preserved by every placement, proved from the fill-loop specification). "
+              "C03_resources_*: every resource named by a member is in the result, supplied ones first in order; C03_default_calendar ties the "
+              "extracted DEFAULT_CALENDAR to Mon-Fri 8. The model (lean/PjVerif/Model/Sched.lean + Clone.lean) mirrors schedule.py statement by "
+              "statement and is tied to the code by a correspondence stream (random WBSs with links on leaves and summaries, outside "
+              "predecessors, milestones, fixed dates, 0-3 resources with weekly/dated/composed/bounded/dead calendars, scripted clock): ordered "
+              "usage rows, dates and resource list must be equal; the same Bool predicates the theorems conclude are evaluated on the "
+              "implementation's observation, and ResourceUsageReport.reserved/rows are compared with the rows."),
+        design='6 (C03)', technique='Lean 4 proof (ledger invariant over the fill-loop specification) + differential correspondence'),
     'C05': dict(
         text=("Theorems over the same model and invariant (Inv = well-formed + truthful owners + unique ids + bounded): C05_step/C05_run - no "
               "operation, accepted or rejected, along any history can make two different tasks of one WBS or one detached tree share an id; "
